@@ -74,11 +74,15 @@ def check_text(text, reg, job, tree_shaped):
         return {"kind": "class-count", "observed": f"{ncls} classes for {len(list(reg.models))} models"}
     try:
         ns = real.load_module(text)
+    except stages.TooCostly:
+        raise
     except Exception as e:  # noqa
         return {"kind": "module-does-not-load", "observed": f"{type(e).__name__}: {e}"}
     for q, cls, chain in real.collect_classes(ns):
         try:
             real.hints(cls, ns, chain)
+        except stages.TooCostly:
+            raise
         except Exception as e:  # noqa
             return {"kind": "annotation-unresolvable", "observed": f"{q}: {type(e).__name__}: {e}"}
     return None
@@ -106,7 +110,7 @@ def falsify(ctx):
         job = common.gen_job(rng)
         try:
             hit, skip = check_case(inputs, cmps, job, registry)
-        except ZeroDivisionError:
+        except (ZeroDivisionError, stages.TooCostly):
             ctx.count("skip:zero-division")
             continue
         except Exception as e:  # noqa
@@ -126,6 +130,8 @@ def replay(ctx, hit):
     from ..worker import cmps_from
     try:
         h, _ = check_case([tuple(x) for x in hit["input"]], cmps_from(hit["cmps"]), hit["job"], stages.make_registry())
+    except stages.TooCostly:
+        raise
     except Exception as e:  # noqa
         h = {"kind": "pipeline-raises", "observed": f"{type(e).__name__}: {e}"}
     return h
